@@ -99,14 +99,18 @@ class C14(Check):
     pid = 'C14'
     budget = {'quick': 30.0, 'thorough': 330.0}
     assumptions = [
-        'single loop, sequential awaits (concurrency is C01\'s subject)',
+        'signature families: single loop, sequential awaits (concurrency is C01\'s subject); the concurrent family only judges '
+        'what the mapping being the only store implies: one fresh computation per evicted key, no computation for a key whose '
+        'value some caller already received while nothing was evicted',
         '"equal" is Python ==/hash on the arguments as passed: f(1) and f(1.0) and f(True) share, f(1) and f(x=1) do not',
         'lru-dict\'s LRU is modelled as an ordered dict refreshed on hit and on store',
     ]
     rule = ('cases = call sequences over signatures built from positional tuples (length 0-2 exhaustively, 3 sampled) over '
             '{0, 1, 1.0, True, "a", rebuilt "a", (1,2), None, ...} and keyword dicts of 1-3 names in every insertion order; all ordered '
             'pairs of a signature sample plus random sequences of 3-12 calls; caches: default dict, logging MutableMapping with '
-            'scripted evictions, LRU of size 1-3; non-trivial = the sequence contains a model hit between non-identical '
+            'scripted evictions, LRU of size 1-3, a hostile mapping; plus concurrent histories (C06\'s scenarios, 30 % with an owner that '
+            'runs its stopped loop again later) after which every key is requested once more, everything is evicted, and every key '
+            'is requested again; non-trivial = the sequence contains a model hit between non-identical '
             'signatures (equal-but-distinct objects / reordered keywords) or an eviction followed by a recomputation; '
             'distinct = distinct sequences')
 
